@@ -782,6 +782,8 @@ package cose
 //@ func (*UntaggedSign1Message).Sign
 //@   requires signer_nonnil: signer != nil
 //@   ensures once [C20]: epoch() == old(epoch()) || epoch() == old(epoch()) + 1
+//@   ensures ok [C01, C02, C20]: err == nil ==> m != nil && epoch() == old(epoch()) + 1 && old(m.Payload) != nil
+//@         && bytes(m.Signature) == signer_sign_bytes(signer, rand, Sig1(ProtBytes(m.Headers), external, m.Payload), old(epoch()))
 //@   ensures err_slot [C20]: m != nil && err != nil ==> m.Signature == old(m.Signature)
 //@   ensures verbatim [C02, C20]: epoch() == old(epoch()) + 1 ==> m != nil
 //@         && err == signer_sign_err(signer, rand, Sig1(ProtBytes(m.Headers), external, m.Payload), old(epoch()))
